@@ -76,8 +76,10 @@ def RA(rows, dtype):
         return RaggedArray(rows, dtype=dtype)
     junk = np.ones(1, dtype=dtype).tolist()[0]
     _rot[0] += 1
-    k = _rot[0] % 5
+    k = _rot[0] % 6
     n = len(rows)
+    if k == 5:          # not a view but the RESULT of a ufunc (maximum(x, x) == x for every dtype, NaN included)
+        x = RaggedArray(rows, dtype=dtype); return np.maximum(x, x)
     if k == 0: return RaggedArray([[junk, junk]] + rows, dtype=dtype)[1:]
     if k == 1: return RaggedArray(rows[::-1], dtype=dtype)[::-1]
     if k == 2: return RaggedArray([list(r) + [junk] for r in rows], dtype=dtype)[:, :-1]
@@ -420,6 +422,12 @@ def run_c08(R, tier, rng):
             C.cmp(f"where ragged {tagc} {M}", "where", nt, lambda: ra_obs(np.where(RaggedArray(M, dtype=bool), mk(), RaggedArray(Y, dtype=dt))),
                   lambda: rows_obs([np.where(np.array(m, dtype=bool), np.array(a, dtype=dt), np.array(b, dtype=dt)) for m, a, b in zip(M, X, Y)], dt),
                   py=f"np.where(RaggedArray({M}), RaggedArray({X}, dtype='{dt}'), RaggedArray({Y}, dtype='{dt}'))")
+            dt2 = dts[(si + rep + 2) % len(dts)]
+            Y2 = fill(ls, VALS[dt2], si + 6)
+            C.cmp(f"where ragged {tagc} {M} y:{dt2}", "where/dtype-pair", nt, lambda: ra_obs(np.where(RaggedArray(M, dtype=bool), mk(), RaggedArray(Y2, dtype=dt2))),
+                  lambda: rows_obs([np.where(np.array(m, dtype=bool), np.array(a, dtype=dt), np.array(b, dtype=dt2)) for m, a, b in zip(M, X, Y2)],
+                                   np.where(np.array([], dtype=bool), np.array([], dtype=dt), np.array([], dtype=dt2)).dtype),
+                  py=f"np.where(RaggedArray({M}), RaggedArray({X}, dtype='{dt}'), RaggedArray({Y2}, dtype='{dt2}'))")
             sc = VALS[dt][3]
             C.cmp(f"where scalar-y {tagc} {M}", "where", nt, lambda: ra_obs(np.where(RaggedArray(M, dtype=bool), mk(), sc)),
                   lambda: rows_obs([np.where(np.array(m, dtype=bool), np.array(a, dtype=dt), sc) for m, a in zip(M, X)], np.where(np.array([], dtype=bool), np.array([], dtype=dt), sc).dtype))
@@ -504,9 +512,162 @@ def run_c09(R, tier, rng):
                 C.cmp("np.sum(axis=0) " + tagc, "colsum", nt, lambda: canon_sum(np.sum(mk(), axis=0)), lambda: [key(float(x)) if dt.startswith("float") else int(x) for x in colsum()])
                 counts = [sum(1 for l in ls if l > j) for j in range(m)]
                 C.cmp("col_counts " + tagc, "col_counts", nt, lambda: [int(x) for x in mk().col_counts()], lambda: counts, py=f"RaggedArray({X}, dtype='{dt}').col_counts()")
-                if vn == "small":
+                if vn == "small" or n <= 3:
                     C.cmp("mean(axis=0) " + tagc, "colmean", nt, lambda: [key(float(x)) for x in mk().mean(axis=0)],
                           lambda: [key(float(np.mean(np.array([r[j] for r in X if len(r) > j], dtype=dt)))) for j in range(m)], py=f"RaggedArray({X}, dtype='{dt}').mean(axis=0)")
                 for j in range(min(m, 5)):
                     C.cmp(f"get_column_values({j}) " + tagc, "get_column_values", nt, lambda: ra_obs(mk().get_column_values(j)),
                           lambda: {"array": kl(np.array([r[j] for r in X if len(r) > j], dtype=dt)), "dtype": dt}, py=f"RaggedArray({X}, dtype='{dt}').get_column_values({j})")
+
+
+# ------------------------------------------------------------------------------------------------ stateful sequences
+def run_sequences(R, tier, rng, which):
+    """operations repeated on ONE array object with a mutation in between (caches, flags and memoised intermediates must not go stale),
+    and the array itself must be unchanged by reading operations.  which: 'reduce' (C05) | 'scan' (C07) | 'ufunc' (C04)"""
+    import numpy as np
+    from npstructures import RaggedArray
+    C = Ctx(R, "seq-" + which)
+    sh = [ls for ls in shapes_for(tier, rng, quick_alpha=(0, 1, 3), maxrows=4) if sum(ls) > 0]
+    dts = ["int8", "int64", "uint8", "float32", "float64", "bool"]
+    for si, ls in enumerate(sh):
+        if tier != "thorough" and si % 2: continue
+        n = len(ls); nt = n >= 2
+        dt = dts[si % len(dts)]
+        X = fill(ls, SMALL[dt], si)
+        cells = [(i, j) for i, l in enumerate(ls) for j in range(l)]
+        ci, cj = cells[si % len(cells)]
+        newv = SMALL[dt][(si + 2) % len(SMALL[dt])]
+        fillv = SMALL[dt][(si + 1) % len(SMALL[dt])]
+        X_set = [list(r) for r in X]; X_set[ci][cj] = newv
+        X_fill = [[fillv for _ in r] for r in X]
+        def mutate(a, how):
+            if how == "setitem": a[ci, cj] = newv; return X_set
+            if how == "fill": a.fill(fillv); return X_fill
+            if how == "row": a[ci] = newv; return [[newv] * len(r) if i == ci else list(r) for i, r in enumerate(X)]
+        for how in ("setitem", "fill", "row"):
+            tag = f"{dt} {ls} {how}"
+            if which == "reduce":
+                for meth in ("sum", "prod", "max", "min", "mean", "any", "all", "argmax", "argmin"):
+                    if meth in ("max", "min", "mean", "argmax", "argmin") and 0 in ls: continue
+                    f = getattr(np, meth)
+                    def seq():
+                        a = RA(X, dt); r1 = kl(getattr(a, meth)(axis=-1)); same = kl(a.tolist())
+                        Xn = mutate(a, how); r2 = getattr(a, meth)(axis=-1)
+                        getattr(a, meth)(axis=-1)            # a second call must not disturb anything either
+                        return [r1, same, kl(r2), kl(a.tolist())]
+                    def spec():
+                        Xn = mutate(RaggedArray(X, dtype=dt), how)
+                        return [kl(np.array([f(np.array(r, dtype=dt)) for r in X])), kl([np.array(r, dtype=dt) for r in X]),
+                                kl(np.array([f(np.array(r, dtype=dt)) for r in Xn])), kl([np.array(r, dtype=dt) for r in Xn])]
+                    C.cmp(f"{meth} {tag}", "reduce-mutate-reduce/" + meth, nt, seq, spec,
+                          py=f"a = RaggedArray({X}, dtype='{dt}'); a.{meth}(axis=-1); <{how}>; a.{meth}(axis=-1)  (first result, array after the read, second result, array)")
+            if which == "scan":
+                ops = [("cumsum", lambda a: np.cumsum(a, axis=-1), lambda r: np.cumsum(r))] if dt.startswith(("int", "uint")) else []
+                ops += [("add.accumulate", lambda a: np.add.accumulate(a, axis=-1), lambda r: np.add.accumulate(r)), ("sort", lambda a: a.sort(axis=-1), lambda r: np.sort(r, kind="stable")),
+                        ("diff", lambda a: np.diff(a, axis=-1), lambda r: np.diff(r)), ("unique", lambda a: np.unique(a, axis=-1), lambda r: np.unique(r))]
+                if dt != "bool": ops.append(("subtract.accumulate", lambda a: np.subtract.accumulate(a, axis=-1), lambda r: np.subtract.accumulate(r)))
+                for name, fi, fs in ops:
+                    def seq():
+                        a = RA(X, dt); r1 = kl(fi(a).tolist()); same = kl(a.tolist())
+                        mutate(a, how); r2 = kl(fi(a).tolist())
+                        return [r1, same, r2, kl(a.tolist())]
+                    def spec():
+                        Xn = mutate(RaggedArray(X, dtype=dt), how)
+                        return [[kl(fs(np.array(r, dtype=dt))) for r in X], [kl(np.array(r, dtype=dt)) for r in X], [kl(fs(np.array(r, dtype=dt))) for r in Xn], [kl(np.array(r, dtype=dt)) for r in Xn]]
+                    C.cmp(f"{name} {tag}", "scan-mutate-scan/" + name, nt, seq, spec, py=f"a = RaggedArray({X}, dtype='{dt}'); {name}(a); <{how}>; {name}(a)")
+        if which == "ufunc" and n:
+            # two column-vector ufuncs in a row on one array object (and on arrays derived from it: the shape object is shared)
+            big = {"float32": [1e16, 1.0, 3.0, 0.1, float("inf"), 2.0], "float64": [1e16, 1.0, 3.0, 0.1, float("inf"), 2.0]}.get(dt, SMALL[dt])
+            col1 = [big[(si + i) % len(big)] for i in range(n)]; col2 = [big[(si + 2 + i) % len(big)] for i in range(n)]
+            c1 = np.array(col1, dtype=dt)[:, None]; c2 = np.array(col2, dtype=dt)[:, None]
+            for first in ("greater", "subtract", "add"):
+                f1 = getattr(np, first)
+                if dt == "bool" and first == "subtract": continue
+                def seq():
+                    a = RA(X, dt); r1 = ra_obs(f1(a, c1)); b = a * 1 if dt != "bool" else a
+                    r2 = ra_obs(np.multiply(a, c2) if dt != "bool" else np.logical_and(a, c2)); r3 = ra_obs(np.add(b, c2) if dt != "bool" else np.logical_or(b, c2))
+                    return [r1, r2, r3, kl(a.tolist())]
+                def spec():
+                    rows = [np.array(r, dtype=dt) for r in X]
+                    o1 = rows_obs([f1(r, c1[i, 0]) for i, r in enumerate(rows)], f1(np.array([], dtype=dt), c1[0, 0]).dtype)
+                    m = (lambda r, c: np.multiply(r, c)) if dt != "bool" else (lambda r, c: np.logical_and(r, c))
+                    ad = (lambda r, c: np.add(r, c)) if dt != "bool" else (lambda r, c: np.logical_or(r, c))
+                    o2 = rows_obs([m(r, c2[i, 0]) for i, r in enumerate(rows)], m(np.array([], dtype=dt), c2[0, 0]).dtype)
+                    o3 = rows_obs([ad(r * 1 if dt != "bool" else r, c2[i, 0]) for i, r in enumerate(rows)], ad(np.array([], dtype=dt) * 1 if dt != "bool" else np.array([], dtype=dt), c2[0, 0]).dtype)
+                    return [o1, o2, o3, [kl(r) for r in rows]]
+                C.cmp(f"{first} then multiply/add {dt} {ls} {col1} {col2}", "ufunc-sequence/" + first, nt, seq, spec,
+                      py=f"a = RaggedArray({X}, dtype='{dt}'); np.{first}(a, col({col1})); b = a*1; np.multiply(a, col({col2})); np.add(b, col({col2}))")
+
+
+# ------------------------------------------------------------------------------------------------ C03 across dtypes
+def _addr(lens, idx):
+    """addressed cells of an index expression as rows of (row, col) pairs, by plain Python list semantics; squeezed = a single row"""
+    cells = [[(i, j) for j in range(l)] for i, l in enumerate(lens)]
+    if idx is Ellipsis: return cells, False
+    r, c = idx if isinstance(idx, tuple) else (idx, None)
+    squeezed = isinstance(r, int)
+    if isinstance(r, int): rows = [cells[r]]
+    elif isinstance(r, slice): rows = cells[r]
+    elif r and isinstance(r[0], bool):
+        assert len(r) == len(cells); rows = [row for row, b in zip(cells, r) if b]
+    else: rows = [cells[i] for i in r]
+    if c is not None: rows = [row[c] for row in rows]
+    return rows, squeezed
+
+
+@both_variants
+def run_c03(R, tier, rng):
+    import numpy as np
+    from npstructures import RaggedArray
+    C = Ctx(R, "assign")
+    sh = [ls for ls in shapes_for(tier, rng) if ls]
+    dts = ["bool", "int8", "int64", "uint8", "float32", "float64"]
+    HARD = dict(VALS); HARD["float32"] = [1e16, 1.0, 3.0, float("inf"), 0.1, -2.25]; HARD["float64"] = [1e16, 1.0, 3.0, float("inf"), 0.1, -2.25]
+    for si, ls in enumerate(sh):
+        n = len(ls); nt = n >= 2 and sum(ls) > 0
+        dt = dts[si % len(dts)]
+        X = fill(ls, VALS[dt], si)
+        pool = HARD[dt]
+        idxs = [slice(None), slice(1, None), slice(None, None, -1), slice(None, None, 2), Ellipsis, [n - 1], list(range(n))[::-1], [i % 2 == 0 for i in range(n)],
+                (slice(None), slice(1, None)), (slice(None), slice(None, None, -1)), (slice(None, None, -1), slice(None, None, 2)), (slice(None), slice(None, -1)), 0, n - 1, -1]
+        for k, idx in enumerate(idxs):
+            if tier != "thorough" and (si + k) % 3: continue
+            try: rows, squeezed = _addr(ls, idx)
+            except Exception: continue
+            sel_lens = [len(r) for r in rows]
+            vals = iter(pool[(si + k + t) % len(pool)] for t in range(10 ** 6))
+            kinds = [("scalar", next(vals))]
+            if not squeezed and rows:
+                kinds.append(("column", [[next(vals)] for _ in rows]))
+                kinds.append(("ragged", [[next(vals) for _ in r] for r in rows]))
+                if sum(sel_lens): kinds.append(("ragged-mismatch", [[next(vals) for _ in r] + [next(vals)] if i == 0 else [next(vals) for _ in r] for i, r in enumerate(rows)]))
+            if squeezed: kinds.append(("flat", [next(vals) for _ in rows[0]]))
+            for vk, v in kinds:
+                def impl():
+                    a = RA(X, dt)
+                    ix = tuple(np.array(x) if isinstance(x, list) else x for x in idx) if isinstance(idx, tuple) else (np.array(idx) if isinstance(idx, list) else idx)
+                    if isinstance(ix, np.ndarray) and ix.size == 0: ix = np.array([], dtype=int)
+                    val = v if vk == "scalar" else np.array(v, dtype=dt) if vk in ("column", "flat") else RaggedArray(v, dtype=dt)
+                    a[ix] = val
+                    return {"rows": kl(a.tolist()), "dtype": str(a.dtype), "lens": np.asarray(a.lengths).tolist()}
+                def spec():
+                    if vk == "ragged-mismatch": raise ValueError("row lengths of the value differ from the selection")
+                    Y = [list(r) for r in X]
+                    for ri, row in enumerate(rows):
+                        for ci, (i, j) in enumerate(row):
+                            Y[i][j] = v if vk == "scalar" else v[ri][0] if vk == "column" else v[ri][ci] if vk == "ragged" else v[ci]
+                    return rows_obs([np.array(r, dtype=dt) for r in Y], dt)
+                C.cmp(f"{dt} {ls} [{idx!r}] = {vk} {v!r}", "assign/" + vk, nt, impl, spec, py=f"a = RaggedArray({X}, dtype='{dt}'); a[{idx!r}] = {vk}:{v!r}; a.tolist()")
+        # assignment through a boolean ragged mask: a scalar everywhere, or one value per true cell in row-major order
+        M = [[rng.random() < .5 for _ in r] for r in X]
+        true_cells = [(i, j) for i, r in enumerate(M) for j, b in enumerate(r) if b]
+        for vk in ("scalar", "per-cell"):
+            v = pool[si % len(pool)] if vk == "scalar" else [pool[(si + t) % len(pool)] for t in range(len(true_cells))]
+            def impl():
+                a = RA(X, dt); a[RaggedArray(M, dtype=bool)] = v if vk == "scalar" else np.array(v, dtype=dt)
+                return {"rows": kl(a.tolist()), "dtype": str(a.dtype), "lens": np.asarray(a.lengths).tolist()}
+            def spec():
+                Y = [list(r) for r in X]
+                for t, (i, j) in enumerate(true_cells): Y[i][j] = v if vk == "scalar" else v[t]
+                return rows_obs([np.array(r, dtype=dt) for r in Y], dt)
+            C.cmp(f"{dt} {ls} [ragged mask {M}] = {vk} {v!r}", "assign-mask/" + vk, nt, impl, spec, py=f"a = RaggedArray({X}, dtype='{dt}'); a[RaggedArray({M})] = {v!r}; a.tolist()")
